@@ -17,7 +17,7 @@ from pathlib import Path
 
 REPO = Path(os.environ.get("VERIF_REPO", "/repo"))
 SRC = REPO / "src" / "poetry" / "core"
-OUT = Path(__file__).resolve().parent.parent / "lean" / "PoetryVerif" / "Model" / "Generated.lean"
+OUT = Path(os.environ.get("VERIF_LEAN_DIR", str(Path(__file__).resolve().parent.parent / "lean"))) / "PoetryVerif" / "Model" / "Generated.lean"
 
 
 class ExtractError(Exception):
@@ -380,6 +380,21 @@ def generate() -> str:
     ]
     for g in (gen_phases, gen_generic, gen_markers, gen_permissions, gen_build_consts):
         g(lines)
+        lines.append("")
+    # plug-ins: tools/extract_parts/*.py, each `def gen(lines: list[str]) -> None` (may `from extract import parse, lean_str, …`)
+    import importlib.util
+    parts = Path(__file__).resolve().parent / "extract_parts"
+    sys.path.insert(0, str(Path(__file__).resolve().parent))
+    for f in sorted(parts.glob("*.py")) if parts.is_dir() else []:
+        spec = importlib.util.spec_from_file_location("extract_part_" + f.stem, f)
+        mod = importlib.util.module_from_spec(spec)  # type: ignore[arg-type]
+        try:
+            spec.loader.exec_module(mod)  # type: ignore[union-attr]
+            mod.gen(lines)
+        except ExtractError:
+            raise
+        except Exception as e:  # shape mismatch in a plug-in = extraction failure
+            raise ExtractError(f"{f.name}: {type(e).__name__}: {e}") from e
         lines.append("")
     lines.append("end Poetry.Gen")
     return "\n".join(lines) + "\n"
